@@ -35,6 +35,7 @@ type Obligation struct {
 }
 
 type Exec struct {
+	ghostUsed map[*GhostAt]bool // anchors of the contract under verification that matched an instruction
 	L        *Loaded
 	inInit   bool // verifying a package initialiser: package-level variables are ordinary mutable cells
 	sorts    *Sorts
